@@ -178,29 +178,34 @@ Proof.
         with ((90 :: be 4 (blen d)) ++ d ++ flat_map entry_bytes es ++ 255 :: r).
       rewrite (decode_bstr_hd f _ (blen d)); [|apply bstr_head_w4; pose proof (blen_nonneg d); lia|reflexivity].
       rewrite IH by (auto; lia). reflexivity.
-    + rewrite (dec_ipairs_step _ _ _ 96 ((hd ++ repeat 0 (Z.to_nat k)) ++ flat_map entry_bytes es ++ 255 :: r))
-        by (cbn [app]; auto; lia).
-      change ((96 :: hd ++ repeat 0 (Z.to_nat k)) ++ flat_map entry_bytes es ++ 255 :: r)
-        with (encode (CText []) ++ (hd ++ repeat 0 (Z.to_nat k)) ++ flat_map entry_bytes es ++ 255 :: r).
-      rewrite decode_text by (cbn; lia). rewrite <- app_assoc.
+    + rewrite <- !app_assoc. cbn [app]. rewrite <- !app_assoc.
+      rewrite (dec_ipairs_step _ _ _ 96 (hd ++ repeat 0 (Z.to_nat k) ++ flat_map entry_bytes es ++ 255 :: r))
+        by (auto; lia).
+      change (96 :: hd ++ repeat 0 (Z.to_nat k) ++ flat_map entry_bytes es ++ 255 :: r)
+        with (encode (CText []) ++ hd ++ repeat 0 (Z.to_nat k) ++ flat_map entry_bytes es ++ 255 :: r).
+      rewrite decode_text by (cbn; lia).
       rewrite (decode_bstr_hd f hd k); [|assumption| rewrite blen_repeat; destruct He; lia].
       rewrite IH by (auto; lia). reflexivity.
 Qed.
 
 Lemma entry_bytes_len e : entry_ok e -> (1 <= length (entry_bytes e))%nat.
-Proof. destruct e; cbn [entry_bytes slot_bytes]; intros H; [rewrite app_length; cbn [length]|cbn [length]]; lia. Qed.
+Proof. destruct e as [u d|hd k]; intros H; cbn [entry_bytes]; [unfold slot_bytes; rewrite app_length; cbn [length]; lia | cbn [length]; lia]. Qed.
 Lemma entries_len es : Forall entry_ok es -> (length es <= length (flat_map entry_bytes es))%nat.
 Proof.
   induction es as [|e es IH]; intros H; cbn [flat_map length]; [lia|]. inversion H; subst. rewrite app_length.
   pose proof (entry_bytes_len e). specialize (IH ltac:(assumption)). lia.
 Qed.
 
+Lemma decode_indef f l : decode (S f) (191 :: l) =
+  match dec_ipairs (decode f) (length (191 :: l)) l with Some (cs, r') => Some (CMapI cs, r') | None => None end.
+Proof. reflexivity. Qed.
+
 (* a closed cache file made of entries decodes, as a whole, to one indefinite-length map with exactly those entries *)
 Theorem file_decodes es :
   Forall entry_ok es ->
   loads_exact (191 :: flat_map entry_bytes es ++ [255]) = Some (CMapI (map entry_pair es)).
 Proof.
-  intros Hok. unfold loads_exact. cbn [decode length is_indef_map tl]. change (191 =? 191) with true. cbv iota.
+  intros Hok. unfold loads_exact. rewrite decode_indef. cbn [length].
   rewrite dec_entries; [reflexivity|assumption|]. pose proof (entries_len es Hok). rewrite app_length. cbn [length]. lia.
 Qed.
 
@@ -235,10 +240,12 @@ Proof.
     split; [constructor; [cbn; lia|assumption]|]. split; [cbn [slots_of flat_map app]; fold (slots_of ps); rewrite Hsl; reflexivity|].
     rewrite Heb'. cbn [app] in Hal. exact Hal.
   - exists (es ++ Slot u d :: ps). rewrite Hcd, Hc. cbn [app]. rewrite flat_map_app. cbn [flat_map entry_bytes].
-    split; [rewrite <- !app_assoc; reflexivity|]. split; [apply Forall_app; split; [assumption|constructor; [cbn; lia|assumption]]|].
+    split; [repeat rewrite <- app_assoc; reflexivity|]. split; [apply Forall_app; split; [assumption|constructor; [cbn; lia|assumption]]|].
     split; [rewrite slots_of_app, Hso; cbn [slots_of flat_map app]; fold (slots_of ps); rewrite Hsl; reflexivity|].
-    rewrite Heb'. cbn [app] in Hal. rewrite <- Hc.
-    rewrite blen_app. rewrite Z.add_mod by lia. rewrite Hmod, Hal. reflexivity.
+    rewrite Heb'. cbn [app] in Hal.
+    change (191 :: flat_map entry_bytes es ++ slot_bytes u d ++ flat_map entry_bytes ps)
+      with ((191 :: flat_map entry_bytes es) ++ slot_bytes u d ++ flat_map entry_bytes ps).
+    rewrite <- Hc, blen_app, Z.add_mod by lia. rewrite Hmod, Hal. reflexivity.
 Qed.
 
 Lemma add_all_inv slots : forall c done c',
@@ -266,11 +273,12 @@ Proof.
   intros Heb Hne Hu Hadd Hclose.
   destruct (add_all_inv slots (cache_init eb) [] c) as [HI Hebc]; try assumption.
   { left. repeat split. }
-  cbn [app] in HI. destruct HI as [(_ & _ & <-) | (Hf & es & Hc & Hes & Hso & Hmod)]; [congruence|].
+  cbn [app] in HI. destruct HI as [(_ & _ & Hs0) | (Hf & es & Hc & Hes & Hso & Hmod)]; [congruence|].
   unfold close_and_save_cache in Hclose. cbv zeta in Hclose. repeat step. unset. injection Hclose as <-.
   exists es. rewrite Hc. cbn [app]. split; [apply file_decodes; assumption|]. split; [assumption|]. split; [assumption|].
+  change (191 :: flat_map entry_bytes es ++ [255]) with ((191 :: flat_map entry_bytes es) ++ [255]).
   rewrite <- Hc. rewrite blen_app. cbn [eb_size cache_init] in Hebc. rewrite Hebc in Hmod.
-  replace (blen (cache_data c) + blen [255] - 1) with (blen (cache_data c)) by (unfold blen at 2; cbn [length]; lia). exact Hmod.
+  change (blen [255]) with 1. replace (blen (cache_data c) + 1 - 1) with (blen (cache_data c)) by lia. exact Hmod.
 Qed.
 
 (* every slot after the first begins on an erase-block boundary: the state before each later add is aligned, and
@@ -294,4 +302,60 @@ Proof.
     + rewrite <- IH. destruct (foldM _ dict c); reflexivity.
     + destruct (add_cache_slot c k v) as [c1|]; cbn [bind]; [|reflexivity].
       rewrite <- IH. destruct (foldM _ dict c1); reflexivity.
+Qed.
+
+(* ---- merging several cache files, duplicates ---- *)
+Lemma add_all_app a b c : add_all (a ++ b) c = let* c1 := add_all a c in add_all b c1.
+Proof.
+  unfold add_all. revert c. induction a as [|x a IH]; intros c; cbn [app foldM bind]; [reflexivity|].
+  destruct (add_cache_slot c (fst x) (snd x)) as [c1|]; cbn [bind]; [apply IH|reflexivity].
+Qed.
+
+Definition nonpad (kv : bytes * bytes) : bool := negb (blen (fst kv) =? 0).
+
+Lemma merge_many dicts : forall c,
+  foldM merge_single_cache_dict dicts c = add_all (flat_map (filter nonpad) dicts) c.
+Proof.
+  induction dicts as [|d dicts IH]; intros c; cbn [foldM flat_map]; [reflexivity|].
+  rewrite add_all_app, merge_is_add_all. fold nonpad. destruct (add_all (filter nonpad d) c) as [c1|]; cbn [bind]; [apply IH|reflexivity].
+Qed.
+
+(* merged output = one well-formed cache holding every non-padding pair of every input, in order *)
+Theorem merge_preserves eb dicts c f out :
+  0 < eb -> flat_map (filter nonpad) dicts <> [] ->
+  Forall (fun ud => blen (fst ud) < 2 ^ 64) (flat_map (filter nonpad) dicts) ->
+  foldM merge_single_cache_dict dicts (cache_init eb) = Ok c -> close_and_save_cache c f = Ok out ->
+  exists es, loads_exact out = Some (CMapI (map entry_pair es)) /\ slots_of es = flat_map (filter nonpad) dicts
+             /\ Forall entry_ok es /\ (blen out - 1) mod eb = 0.
+Proof. intros Heb Hne Hu Hm Hc. rewrite merge_many in Hm. eapply cache_decodes; eassumption. Qed.
+
+Lemma str_in_false u l : str_in u l = false -> ~ In u l.
+Proof.
+  unfold str_in. intros H Hin. assert (existsb (str_eqb u) l = true); [|congruence].
+  apply existsb_exists. exists u. split; [assumption|apply list_eqb_refl].
+Qed.
+
+Lemma NoDup_snoc {A} (l : list A) x : NoDup l -> ~ In x l -> NoDup (l ++ [x]).
+Proof.
+  induction l as [|a l IH]; intros Hn Hx; cbn [app]; [repeat constructor; intros []|].
+  inversion Hn as [|? ? Ha Hl]; subst. constructor.
+  - intros Hin. apply in_app_or in Hin. destruct Hin as [H|[<-|[]]]; [contradiction|]. apply Hx. left; reflexivity.
+  - apply IH; [assumption|]. intros H; apply Hx; right; assumption.
+Qed.
+
+(* every accepted sequence of slots has pairwise distinct, non-empty URIs: a duplicate (or empty) URI anywhere in
+   the inputs makes the whole build / merge fail instead of overwriting *)
+Theorem accepted_uris_distinct slots : forall c c',
+  0 < eb_size c -> NoDup (uris c) -> add_all slots c = Ok c' ->
+  uris c' = uris c ++ map fst slots /\ NoDup (uris c') /\ Forall (fun ud => fst ud <> []) slots.
+Proof.
+  induction slots as [|[u d] slots IH]; intros c c' Heb Hnd H; cbn [add_all foldM map] in *.
+  - injection H as <-. rewrite app_nil_r. repeat split; [assumption|constructor].
+  - destruct (add_cache_slot c (fst (u, d)) (snd (u, d))) as [c1|] eqn:E; cbn [bind fst snd] in *; [|discriminate].
+    assert (Hne : u <> []). { intros ->. rewrite empty_uri_rejected in E. discriminate. }
+    apply add_cache_slot_spec in E; [|assumption]. destruct E as (pad & _ & _ & _ & _ & Heb1 & Hu1 & Hni & _).
+    assert (Hnd1 : NoDup (uris c1)).
+    { rewrite Hu1. apply NoDup_snoc; [assumption|]. exact (str_in_false _ _ Hni). }
+    destruct (IH c1 c') as (Hu2 & Hnd2 & Hall); [lia|assumption|exact H|].
+    split; [rewrite Hu2, Hu1, <- app_assoc; reflexivity|]. split; [assumption|]. constructor; assumption.
 Qed.
